@@ -800,6 +800,8 @@ class SshHostCertificateV00Base(ParsableBase, SshCertificateBase):  # pylint: di
         parser.parse_parsable('valid_principals', SshCertValidPrincipals)
 
         parser.parse_timestamp('valid_after')
+        if parser['valid_after'] is None:  # only valid_before has a "forever" value
+            raise InvalidValue(None, cls, 'valid_after')
         parser.parse_timestamp('valid_before')
 
         parser.parse_parsable('constraints', SshCertConstraintVector)
@@ -971,6 +973,8 @@ class SshHostCertificateV01Base(ParsableBase, SshCertificateBase):  # pylint: di
         parser.parse_parsable('valid_principals', SshCertValidPrincipals)
 
         parser.parse_timestamp('valid_after')
+        if parser['valid_after'] is None:  # only valid_before has a "forever" value
+            raise InvalidValue(None, cls, 'valid_after')
         parser.parse_timestamp('valid_before')
 
         parser.parse_parsable('critical_options', SshCertCriticalOptionVector)
